@@ -101,11 +101,13 @@ def _run_once(case, fault):
             pass
         shutil.rmtree(tmpdir, ignore_errors=True)
     g = sysrun.group_constants(None, cfg, span, 1, events_meta=meta)
-    g["dt"] = _c01.DT_SPEC
-    # output interval on the spec's tick lattice: OutDt/Dt keeps the ratio out/step exactly
-    if (case["out"] * _c01.DT_SPEC) % step != 0:
+    # output interval on the spec's tick lattice: OutDt/Dt keeps the ratio out/step exactly (a finer lattice, 6 ticks per
+    # step, for ratios such as 2/3 - only for cases without events, whose times are mapped with 4 ticks per step)
+    dts = _c01.DT_SPEC if (case["out"] * _c01.DT_SPEC) % step == 0 else 6
+    if (case["out"] * dts) % step != 0 or (dts != _c01.DT_SPEC and case["events"]):
         raise ValueError("output/physics ratio not representable on the tick lattice")
-    g["out_dt"] = case["out"] * _c01.DT_SPEC // step
+    g["dt"] = dts
+    g["out_dt"] = case["out"] * dts // step
     if case.get("span_cfg"):
         g["span"] = case["span_cfg"]
     return {"case": case, "group": g, "events": events, "ops": ops}
@@ -171,9 +173,9 @@ def _keep_outer(current, orig, new):
 
 def make_cases(ctx: Ctx, rng):
     cases = []
-    pairs = [(60, 60), (60, 120), (60, 180), (60, 90), (40, 60), (30, 60), (300, 300), (2, 4)]
+    pairs = [(60, 60), (60, 120), (60, 180), (60, 90), (40, 60), (30, 60), (300, 300), (2, 4), (90, 60)]
     if not ctx.quick:
-        pairs += [(60, 240), (120, 180), (7, 21), (7, 14), (900, 900), (20, 50)]
+        pairs += [(60, 240), (120, 180), (7, 21), (7, 14), (900, 900), (20, 50), (60, 40), (150, 100)]
     starts = ["2018-12-01T12:00:00", "2018-12-01T23:58:30", "2020-02-29T23:59:00", "2019-12-31T23:57:41"]
     splits = [[4], [2, 2], [1, 2, 1], [3, 1]] if ctx.quick else [[6], [3, 3], [2, 2, 2], [1, 4, 1], [5, 1], [4]]
 
@@ -187,6 +189,12 @@ def make_cases(ctx: Ctx, rng):
             span = sum(split)
             start = starts[(pi + si) % len(starts)]
             add(start=start, step=step, out=out, span=span, split=split, estimation=(pi + si) % 3 != 0)
+            fine = (out * _c01.DT_SPEC) % step != 0       # physics step LARGER than (and no multiple of) the output step
+            if fine:
+                if si in (0, 1):
+                    add(start=["2019-06-15T07:13:00", "2021-03-30T16:00:00"][si], step=step, out=out, span=span, split=split,
+                        estimation=True, span_cfg=[1, 2][si], sure_obs=True)
+                continue
             # agent set changes
             j = 1 + (pi + si) % (span - 1)
             evs = [[{"kind": "addTarget", "t0": j * step}],
